@@ -200,8 +200,8 @@ fn graph_facts(c: &Case) -> GraphFacts {
 fn oracle(c: &Case, imp: &str) -> Option<String> {
     let f = graph_facts(c);
     let must_reject = f.dangling_extends || f.dangling_include || f.extends_cycle || f.include_cycle;
-    if imp.starts_with("panic") {
-        return Some(format!("registration panicked: {imp}"));
+    if imp.starts_with("panic") || imp.starts_with("died") {
+        return Some(format!("registration did not return Ok or Err: {imp}"));
     }
     if imp.starts_with("ok") {
         return must_reject.then(|| format!("accepted although {f:?}"));
@@ -355,25 +355,104 @@ fn plan(quick: bool) -> Plan {
     }
 }
 
-/// worker: handles the indices `k, k + stride, …`; one line per set: `idx \t registration \t renders`
-fn child_exhaustive(quick: bool, seed: u64, k: u64, stride: u64) {
+/// the random stream: seeded random graphs followed by long rings (deterministic in the seed, so
+/// that workers and the parent see the same list)
+fn random_stream(quick: bool, seed: u64) -> (Vec<Case>, usize) {
+    let mut rng = Rng::new(seed);
+    let n_random = if quick { 6000 } else { 600_000 };
+    let mut randoms: Vec<Case> = (0..n_random).map(|_| random_case(&mut rng)).collect();
+    // long rings (beyond any fixed depth someone might cut a walk at), alone and entered from a tail
+    let mut ring_sizes: Vec<usize> = vec![65, 100, 129];
+    if !quick {
+        for _ in 0..12 {
+            ring_sizes.push(66 + rng.below(260));
+        }
+    }
+    for &n in &ring_sizes {
+        for extends in [false, true] {
+            randoms.push(ring_case(extends, n, 0));
+            randoms.push(ring_case(extends, n, 3));
+        }
+    }
+    (randoms, ring_sizes.len() * 4)
+}
+
+/// ends the worker when one set takes longer than `secs` (a hang is an observation about that set)
+fn start_watchdog(progress: std::sync::Arc<std::sync::atomic::AtomicU64>, secs: u64) {
+    std::thread::spawn(move || {
+        let t0 = Instant::now();
+        loop {
+            std::thread::sleep(Duration::from_millis(200));
+            let last = progress.load(std::sync::atomic::Ordering::Relaxed);
+            if t0.elapsed().as_millis() as u64 > last + secs * 1000 {
+                std::process::exit(3);
+            }
+        }
+    });
+}
+
+/// worker for a stream ("exh": the exhaustive enumeration, "rnd": the random stream): handles the
+/// indices `start, start + stride, …`.  Everything that touches the engine happens here, never in
+/// the parent.  Before each stage it announces `at <idx> <stage>` so that a stack overflow, abort
+/// or hang names its culprit; one line per finished set:
+/// `idx \t registration \t renders \t history`.
+fn child_stream(kind: &str, quick: bool, seed: u64, start: u64, stride: u64) {
     let p = plan(quick);
+    let randoms = if kind == "rnd" { random_stream(quick, seed).0 } else { Vec::new() };
+    let total = if kind == "rnd" { randoms.len() as u64 } else { p.total };
+    let progress = std::sync::Arc::new(std::sync::atomic::AtomicU64::new(0));
+    start_watchdog(progress.clone(), 20);
+    let t0 = Instant::now();
     let stdout = std::io::stdout();
     let mut w = std::io::BufWriter::new(stdout.lock());
-    let mut idx = k;
-    while idx < p.total {
-        let c = exhaustive_case(p.n, idx, seed, p.max_edges, &p.sets);
-        // announce, so that a crash while rendering names its culprit
-        writeln!(w, "at {idx}").unwrap();
+    let mut idx = start;
+    while idx < total {
+        progress.store(t0.elapsed().as_millis() as u64, std::sync::atomic::Ordering::Relaxed);
+        let c = if kind == "rnd" { randoms[idx as usize].clone() } else { exhaustive_case(p.n, idx, seed, p.max_edges, &p.sets) };
+        writeln!(w, "at {idx} reg").unwrap();
         w.flush().unwrap();
         let (imp, tera) = register(&c);
-        let renders = tera.map(|t| render_all(&t, &c)).unwrap_or_default();
+        writeln!(w, "at {idx} render").unwrap();
+        w.flush().unwrap();
+        // the exhaustive sets are rendered whenever they are accepted; the larger random ones only
+        // when the independent oracle agrees they are acyclic (anything else that got accepted is
+        // reported by the parent from the registration answer)
+        let renders = match tera {
+            Some(t) if kind == "exh" || oracle(&c, &imp).is_none() => render_all(&t, &c),
+            _ => String::new(),
+        };
+        writeln!(w, "at {idx} hist").unwrap();
+        w.flush().unwrap();
         // the same set reached through a replacement of one template
-        let hist = history_check(&c, (idx % p.n as u64) as usize, &imp);
+        let hist = if kind == "exh" {
+            history_check(&c, (idx % p.n as u64) as usize, &imp)
+        } else {
+            let n = c.tpls.len();
+            let mut hist = history_check(&c, n / 2, &imp);
+            if !hist.starts_with("diff") && n > 1 {
+                let h2 = history_check(&c, n - 1, &imp);
+                if h2.starts_with("diff") || hist == "na" {
+                    hist = format!("{h2}\u{1}{}", n - 1);
+                }
+            }
+            hist
+        };
         writeln!(w, "{idx}\t{imp}\t{renders}\t{hist}").unwrap();
         idx += stride;
     }
     w.flush().unwrap();
+}
+
+/// worker: registers the set of a JSON file (optionally through the two-step history) and prints
+/// the answer
+fn child_reg(path: &str, two_step: Option<usize>) {
+    let c: Case = serde_json::from_str(&std::fs::read_to_string(path).expect("case file")).expect("case json");
+    let progress = std::sync::Arc::new(std::sync::atomic::AtomicU64::new(0));
+    start_watchdog(progress, 20);
+    match two_step {
+        None => println!("{}", register(&c).0),
+        Some(x) => println!("{}", register_two_step(&c, x).unwrap_or_else(|| "na".into())),
+    }
 }
 
 /// worker: registers the set of a JSON file and renders one template; prints one line
@@ -443,6 +522,125 @@ fn render_in_child(c: &Case, name: &str, tag: &str, timeout: Duration) -> (Strin
     let _ = std::fs::remove_file(&path);
     let _ = std::fs::remove_dir(&dir);
     r
+}
+
+fn write_case(c: &Case, tag: &str) -> std::path::PathBuf {
+    let dir = std::env::temp_dir().join(format!("c11-{}", std::process::id()));
+    let _ = std::fs::create_dir_all(&dir);
+    let path = dir.join(format!("{tag}-{:?}.json", std::thread::current().id()).replace(['(', ')'], ""));
+    std::fs::write(&path, serde_json::to_string(c).unwrap()).unwrap();
+    path
+}
+
+/// Registration in a child process (the parent never calls the engine): the answer in the format
+/// of `register`, or `died <status>` when the engine aborted, overflowed the stack or hung.
+fn safe_register(c: &Case) -> String {
+    let path = write_case(c, "reg");
+    let (status, out) = run_child(&["--child".into(), "reg".into(), path.to_string_lossy().to_string()], Duration::from_secs(40));
+    let _ = std::fs::remove_file(&path);
+    if status == "exit0" { out.trim().to_string() } else { format!("died {status}") }
+}
+
+/// `register_two_step` in a child process; `None` = first step not accepted
+fn safe_two_step(c: &Case, x: usize) -> Option<String> {
+    let path = write_case(c, "reg2");
+    let (status, out) = run_child(&["--child".into(), "reg2".into(), path.to_string_lossy().to_string(), x.to_string()], Duration::from_secs(40));
+    let _ = std::fs::remove_file(&path);
+    if status != "exit0" {
+        return Some(format!("died {status}"));
+    }
+    let o = out.trim().to_string();
+    if o == "na" { None } else { Some(o) }
+}
+
+fn safe_history_check(c: &Case, x: usize, imp: &str) -> String {
+    match safe_two_step(c, x) {
+        None => "na".into(),
+        Some(r) if same_answer(&r, imp) => "same".into(),
+        Some(r) => format!("diff {r}"),
+    }
+}
+
+#[derive(Default)]
+struct StreamOut {
+    /// (idx, registration, renders, history)
+    rows: Vec<(u64, String, String, String)>,
+    /// (idx, stage, worker status)
+    culprits: Vec<(u64, String, String)>,
+    /// indices never run because a worker was given up on, or ended without naming a set
+    notes: Vec<String>,
+}
+
+/// Run a stream in `threads` worker processes; a worker that dies is restarted after its culprit.
+fn run_stream(kind: &str, quick: bool, seed: u64, threads: usize) -> StreamOut {
+    let per_worker: Vec<StreamOut> = std::thread::scope(|s| {
+        let hs: Vec<_> = (0..threads)
+            .map(|k| {
+                s.spawn(move || {
+                    let mut out = StreamOut::default();
+                    let mut start = k as u64;
+                    loop {
+                        let a: Vec<String> = vec![
+                            "--child".into(),
+                            kind.to_string(),
+                            if quick { "quick".into() } else { "thorough".into() },
+                            seed.to_string(),
+                            start.to_string(),
+                            threads.to_string(),
+                        ];
+                        let (status, text) = run_child(&a, Duration::from_secs(if quick { 240 } else { 3000 }));
+                        let mut last_at: Option<(u64, String)> = None;
+                        for line in text.lines() {
+                            if let Some(rest) = line.strip_prefix("at ") {
+                                let mut it = rest.splitn(2, ' ');
+                                let i = it.next().and_then(|x| x.parse().ok());
+                                last_at = i.map(|i| (i, it.next().unwrap_or("reg").to_string()));
+                                continue;
+                            }
+                            let mut it = line.splitn(4, '\t');
+                            let Some(idx) = it.next().and_then(|x| x.parse::<u64>().ok()) else { continue };
+                            let imp = it.next().unwrap_or("").to_string();
+                            let renders = it.next().unwrap_or("").to_string();
+                            let hist = it.next().unwrap_or("na").to_string();
+                            if last_at.as_ref().map(|l| l.0) == Some(idx) {
+                                last_at = None;
+                            }
+                            out.rows.push((idx, imp, renders, hist));
+                        }
+                        if status == "exit0" {
+                            break;
+                        }
+                        match last_at {
+                            Some((idx, stage)) => {
+                                let st = if status.contains("exit status: 3") { "timeout (no answer within 20 s)".to_string() } else { status.clone() };
+                                out.culprits.push((idx, stage, st));
+                                if out.culprits.len() >= 6 {
+                                    out.notes.push(format!("{kind} worker {k}: given up after 6 culprits, sets from #{} on (stride {threads}) were not run", idx + threads as u64));
+                                    break;
+                                }
+                                start = idx + threads as u64;
+                            }
+                            None => {
+                                out.notes.push(format!("{kind} worker {k} ended abnormally ({status}) without naming a set"));
+                                break;
+                            }
+                        }
+                    }
+                    out
+                })
+            })
+            .collect();
+        hs.into_iter().map(|h| h.join().unwrap()).collect()
+    });
+    let mut all = StreamOut::default();
+    for o in per_worker {
+        all.rows.extend(o.rows);
+        all.culprits.extend(o.culprits);
+        all.notes.extend(o.notes);
+    }
+    all.rows.sort_by_key(|r| r.0);
+    all.culprits.sort_by_key(|r| r.0);
+    all
 }
 
 // ---------------------------------------------------------------- shrinking
@@ -715,8 +913,10 @@ fn main() {
     let args: Vec<String> = std::env::args().collect();
     if let Some(i) = args.iter().position(|a| a == "--child") {
         match args[i + 1].as_str() {
-            "exh" => child_exhaustive(args[i + 2] == "quick", args[i + 3].parse().unwrap(), args[i + 4].parse().unwrap(), args[i + 5].parse().unwrap()),
+            k @ ("exh" | "rnd") => child_stream(k, args[i + 2] == "quick", args[i + 3].parse().unwrap(), args[i + 4].parse().unwrap(), args[i + 5].parse().unwrap()),
             "render" => child_render(&args[i + 2], &args[i + 3]),
+            "reg" => child_reg(&args[i + 2], None),
+            "reg2" => child_reg(&args[i + 2], Some(args[i + 3].parse().unwrap())),
             _ => {}
         }
         return;
@@ -730,17 +930,18 @@ fn main() {
         for t in &c.tpls {
             println!("template {:?}: {}", t.name, t.source());
         }
-        let (imp, tera) = register(&c);
-        println!("prefixes: {:?}\nimplementation: {imp}", c.prefixes);
+        let imp = safe_register(&c);
+        println!("prefixes: {:?}\nimplementation (registered in a child process): {imp}", c.prefixes);
         let req = format!("fin 0 1 {}", set_wire(&c.prefixes, &c.tpls));
         println!("model: {:?}", driver::run_batch(&exe, &[req]));
         println!("graph facts: {:?}\noracle: {:?}", graph_facts(&c), oracle(&c, &imp));
         if let Some(k) = j.get("replaced_last").and_then(|v| v.as_u64()) {
             let k = k as usize;
-            println!("with {:?} stripped of its edges in a first batch and re-registered last: {:?}", c.tpls[k].name, register_two_step(&c, k));
-            println!("oracle on that answer: {:?}", register_two_step(&c, k).and_then(|r| oracle(&c, &r)));
+            let two = safe_two_step(&c, k);
+            println!("with {:?} stripped of its edges in a first batch and re-registered last: {:?}", c.tpls[k].name, two);
+            println!("oracle on that answer: {:?}", two.and_then(|r| oracle(&c, &r)));
         }
-        if tera.is_some() {
+        if imp.starts_with("ok") {
             for t in &c.tpls {
                 let (st, out) = render_in_child(&c, &t.name, "replay", Duration::from_secs(20));
                 println!("render {:?} in a child process: {st} {}", t.name, out.trim().chars().take(200).collect::<String>());
@@ -754,138 +955,63 @@ fn main() {
     let quick = env.quick();
     let p = plan(quick);
 
-    // ---- 1. exhaustive enumeration, in worker processes
+    // ---- 1. + 2. the exhaustive enumeration and the random stream, both in worker processes
     let t0 = Instant::now();
-    let worker_out: Vec<(String, String)> = std::thread::scope(|s| {
-        let hs: Vec<_> = (0..threads)
-            .map(|k| {
-                let a: Vec<String> = vec![
-                    "--child".into(),
-                    "exh".into(),
-                    if quick { "quick".into() } else { "thorough".into() },
-                    env.seed.to_string(),
-                    k.to_string(),
-                    threads.to_string(),
-                ];
-                s.spawn(move || run_child(&a, Duration::from_secs(if quick { 240 } else { 3000 })))
-            })
-            .collect();
-        hs.into_iter().map(|h| h.join().unwrap()).collect()
-    });
+    let exh = run_stream("exh", quick, env.seed, threads);
     report.notes.push(format!("exhaustive enumeration: {} sets over {} templates in {:.1} s", p.total, p.n, t0.elapsed().as_secs_f64()));
+    let (randoms, n_rings) = random_stream(quick, env.seed);
+    report.count_n("long-rings", n_rings as u64);
+    let rnd = run_stream("rnd", quick, env.seed, threads);
+    report.exhaustive = exh.rows.len() as u64 == p.total;
+    report.notes.extend(exh.notes.iter().cloned());
+    report.notes.extend(rnd.notes.iter().cloned());
+    let case_of = |is_exh: bool, idx: u64| -> Case {
+        if is_exh { exhaustive_case(p.n, idx, env.seed, p.max_edges, &p.sets) } else { randoms[idx as usize].clone() }
+    };
 
-    let mut results: Vec<(u64, String, String)> = Vec::with_capacity(p.total as usize);
+    // culprits: sets on which a worker died or hung
+    let mut n_culprits = 0u64;
+    for (is_exh, o) in [(true, &exh), (false, &rnd)] {
+        for (k, (idx, stage, status)) in o.culprits.iter().enumerate() {
+            n_culprits += 1;
+            report.count(&format!("worker-death.{stage}"));
+            if report.violations.len() >= 6 {
+                continue;
+            }
+            let c = case_of(is_exh, *idx);
+            let n = c.tpls.len();
+            // shrink (in child processes) while the engine keeps dying; only the first few, a
+            // stack overflow per probe is slow
+            let dies = |d: &Case| -> bool {
+                match stage.as_str() {
+                    "reg" => safe_register(d).starts_with("died"),
+                    "hist" => (0..d.tpls.len()).any(|x| safe_two_step(d, x).is_some_and(|r| r.starts_with("died"))),
+                    _ => false,
+                }
+            };
+            let small = if k < 2 && stage != "render" && dies(&c) { shrink(c.clone(), &dies) } else { c.clone() };
+            let imp = if stage == "reg" { format!("died {status}") } else { safe_register(&small) };
+            let f = graph_facts(&small);
+            let summary = match stage.as_str() {
+                "reg" => format!(
+                    "registration must end in Ok or Err ({}): the engine did not return — worker {status} while registering set #{idx} ({n} templates; graph: {f:?})",
+                    if f.include_cycle { "here Err(CircularInclude)" } else if f.extends_cycle { "here Err(CircularExtend)" } else { "every shape of graph" }
+                ),
+                "hist" => format!("registration did not return — worker {status} while re-registering one template of set #{idx} last (graph: {f:?})"),
+                _ => format!("an accepted set does not render finitely: worker {status} on set #{idx}"),
+            };
+            report.violation("property", summary, replay_json(&small, &imp, serde_json::json!({"worker": status, "stage": stage, "stream": if is_exh { "exhaustive" } else { "random" }, "index": idx})));
+        }
+    }
+    report.oracle_failures += n_culprits;
+
     // (index of the set, template replaced last, answer of the replacing call)
     let mut hist_fails: Vec<(Case, usize, String, String)> = Vec::new();
     let mut n_hist_fails = 0u64;
-    let mut known_seen: BTreeSet<String> = BTreeSet::new();
-    for (status, out) in &worker_out {
-        let mut last_at: Option<u64> = None;
-        for line in out.lines() {
-            if let Some(i) = line.strip_prefix("at ") {
-                last_at = i.parse().ok();
-                continue;
-            }
-            let mut it = line.splitn(4, '\t');
-            let idx: u64 = it.next().unwrap_or("").parse().unwrap_or(u64::MAX);
-            let imp = it.next().unwrap_or("").to_string();
-            let renders = it.next().unwrap_or("").to_string();
-            let hist = it.next().unwrap_or("na");
-            report.count(&format!("history.replacement-last.{}", hist.split(' ').next().unwrap_or("")));
-            if hist != "na" {
-                report.oracle_checks += 1;
-            }
-            if let Some(r2) = hist.strip_prefix("diff ") {
-                n_hist_fails += 1;
-                // keep the strongest examples: those where acceptance itself differs
-                let strong = imp.starts_with("ok") != r2.starts_with("ok");
-                if strong && hist_fails.iter().filter(|h| h.2.starts_with("ok") != h.3.starts_with("ok")).count() < 3 {
-                    hist_fails.insert(0, (exhaustive_case(p.n, idx, env.seed, p.max_edges, &p.sets), (idx % p.n as u64) as usize, imp.clone(), r2.to_string()));
-                } else if hist_fails.len() < 3 {
-                    hist_fails.push((exhaustive_case(p.n, idx, env.seed, p.max_edges, &p.sets), (idx % p.n as u64) as usize, imp.clone(), r2.to_string()));
-                }
-            }
-            if Some(idx) == last_at {
-                last_at = None;
-            }
-            results.push((idx, imp, renders));
-        }
-        if status != "exit0" {
-            // the worker died or hung: the set it had announced is the culprit
-            match last_at {
-                Some(idx) => {
-                    let c = exhaustive_case(p.n, idx, env.seed, p.max_edges, &p.sets);
-                    let (imp, _) = register(&c);
-                    report.oracle_failures += 1;
-                    report.violation(
-                        "property",
-                        format!("an accepted set does not render finitely: worker {status} on set #{idx}"),
-                        replay_json(&c, &imp, serde_json::json!({"worker": status})),
-                    );
-                }
-                None => report.violation(
-                    "model-mismatch",
-                    format!("exhaustive worker ended abnormally ({status}) without naming a set"),
-                    serde_json::json!({"stage": "worker", "status": status}),
-                ),
-            }
-        }
-    }
-    results.sort_by_key(|r| r.0);
-    report.exhaustive = results.len() as u64 == p.total;
-
-    // ---- 2. random larger graphs (registered in-process; accepted ones rendered in-process under
-    //         catch_unwind after the independent oracle agrees they are acyclic)
-    let mut rng = Rng::new(env.seed);
-    let n_random = env.budget(6000, 600_000);
-    let n_exh = results.len();
-    let mut randoms: Vec<Case> = (0..n_random).map(|_| random_case(&mut rng)).collect();
-    // long rings (beyond any fixed depth someone might cut a walk at), alone and entered from a tail
-    let mut ring_sizes: Vec<usize> = vec![65, 100, 129];
-    if !quick {
-        for _ in 0..12 {
-            ring_sizes.push(66 + rng.below(260));
-        }
-    }
-    for &n in &ring_sizes {
-        for extends in [false, true] {
-            randoms.push(ring_case(extends, n, 0));
-            randoms.push(ring_case(extends, n, 3));
-        }
-    }
-    report.count_n("long-rings", (ring_sizes.len() * 4) as u64);
-    let random_results: Vec<(String, String, String)> = std::thread::scope(|s| {
-        let hs: Vec<_> = randoms
-            .chunks(randoms.len().div_ceil(threads).max(1))
-            .map(|cs| {
-                s.spawn(move || {
-                    cs.iter()
-                        .map(|c| {
-                            let (imp, tera) = register(c);
-                            // render only what the independent oracle says is acyclic: anything else
-                            // that got accepted is reported below without risking the stack
-                            let safe = oracle(c, &imp).is_none();
-                            let renders = match tera {
-                                Some(t) if safe => render_all(&t, c),
-                                _ => String::new(),
-                            };
-                            // the same set reached through a replacement (two choices of the template)
-                            let n = c.tpls.len();
-                            let mut hist = history_check(c, c.tpls.len() / 2, &imp);
-                            if !hist.starts_with("diff") && n > 1 {
-                                let h2 = history_check(c, n - 1, &imp);
-                                if h2.starts_with("diff") || hist == "na" {
-                                    hist = format!("{h2}\u{1}{}", n - 1);
-                                }
-                            }
-                            (imp, renders, hist)
-                        })
-                        .collect::<Vec<_>>()
-                })
-            })
-            .collect();
-        hs.into_iter().flat_map(|h| h.join().unwrap()).collect()
-    });
+    let n_exh = exh.rows.len();
+    // every finished set of both streams: (from the exhaustive stream?, row)
+    let all_rows: Vec<(bool, &(u64, String, String, String))> =
+        exh.rows.iter().map(|r| (true, r)).chain(rnd.rows.iter().map(|r| (false, r))).collect();
 
     // ---- model answers and oracles, in waves (the thorough enumeration has millions of sets)
     let mut distinct: std::collections::HashSet<u64> = std::collections::HashSet::new();
@@ -895,37 +1021,33 @@ fn main() {
     let mut n_oracle_fails = 0u64;
     let mut model_ok = true;
     let wave = 200_000usize;
-    let total_cases = n_exh + randoms.len();
+    let total_cases = all_rows.len();
     let mut lo = 0usize;
     while lo < total_cases {
         let hi = (lo + wave).min(total_cases);
         let cases: Vec<(Case, String, String)> = (lo..hi)
             .map(|i| {
-                if i < n_exh {
-                    let (idx, imp, renders) = &results[i];
-                    (exhaustive_case(p.n, *idx, env.seed, p.max_edges, &p.sets), imp.clone(), renders.clone())
-                } else {
-                    let (imp, renders, hist) = &random_results[i - n_exh];
-                    let c = &randoms[i - n_exh];
-                    let (h, x) = match hist.split_once('\u{1}') {
-                        Some((h, x)) => (h, x.parse().unwrap_or(0)),
-                        None => (hist.as_str(), c.tpls.len() / 2),
-                    };
-                    report.count(&format!("history.replacement-last.{}", h.split(' ').next().unwrap_or("")));
-                    if h != "na" {
-                        report.oracle_checks += 1;
-                    }
-                    if let Some(r2) = h.strip_prefix("diff ") {
-                        n_hist_fails += 1;
-                        let strong = imp.starts_with("ok") != r2.starts_with("ok");
-                        if strong && hist_fails.iter().filter(|h| h.2.starts_with("ok") != h.3.starts_with("ok")).count() < 3 {
-                            hist_fails.insert(0, (c.clone(), x, imp.clone(), r2.to_string()));
-                        } else if hist_fails.len() < 3 {
-                            hist_fails.push((c.clone(), x, imp.clone(), r2.to_string()));
-                        }
-                    }
-                    (c.clone(), imp.clone(), renders.clone())
+                let (is_exh, (idx, imp, renders, hist)) = &all_rows[i];
+                let c = case_of(*is_exh, *idx);
+                let (h, x) = match hist.split_once('\u{1}') {
+                    Some((h, x)) => (h, x.parse().unwrap_or(0)),
+                    None => (hist.as_str(), if *is_exh { (*idx % p.n as u64) as usize } else { c.tpls.len() / 2 }),
+                };
+                report.count(&format!("history.replacement-last.{}", h.split(' ').next().unwrap_or("")));
+                if h != "na" {
+                    report.oracle_checks += 1;
                 }
+                if let Some(r2) = h.strip_prefix("diff ") {
+                    n_hist_fails += 1;
+                    // keep the strongest examples: those where acceptance itself differs
+                    let strong = imp.starts_with("ok") != r2.starts_with("ok");
+                    if strong && hist_fails.iter().filter(|h| h.2.starts_with("ok") != h.3.starts_with("ok")).count() < 3 {
+                        hist_fails.insert(0, (c.clone(), x, imp.clone(), r2.to_string()));
+                    } else if hist_fails.len() < 3 {
+                        hist_fails.push((c.clone(), x, imp.clone(), r2.to_string()));
+                    }
+                }
+                (c, imp.clone(), renders.clone())
             })
             .collect();
         let reqs: Vec<String> = cases
@@ -1013,15 +1135,15 @@ fn main() {
         let strong = imp.starts_with("ok") != r2.starts_with("ok");
         let small = shrink(c.clone(), &|d: &Case| match d.tpls.iter().position(|t| t.name == xname) {
             Some(k) => {
-                let (i1, _) = register(d);
-                let h = history_check(d, k, &i1);
+                let i1 = safe_register(d);
+                let h = safe_history_check(d, k, &i1);
                 h.starts_with("diff") && (!strong || (i1.starts_with("ok") != h.starts_with("diff ok")))
             }
             None => false,
         });
         let k = small.tpls.iter().position(|t| t.name == xname).unwrap_or(0);
-        let (i1, _) = register(&small);
-        let i2 = register_two_step(&small, k).unwrap_or_default();
+        let i1 = safe_register(&small);
+        let i2 = safe_two_step(&small, k).unwrap_or_default();
         let want = oracle(&small, &i2);
         let mut first = small.tpls.clone();
         first[k] = strip(&small.tpls[k]);
@@ -1046,10 +1168,10 @@ fn main() {
     for (c, imp0, d) in oracle_fails.iter() {
         let want_accept = imp0.starts_with("ok");
         let small = shrink(c.clone(), &|d: &Case| {
-            let (imp, _) = register(d);
+            let imp = safe_register(d);
             imp.starts_with("ok") == want_accept && oracle(d, &imp).is_some()
         });
-        let (imp, _) = register(&small);
+        let imp = safe_register(&small);
         let desc = oracle(&small, &imp).unwrap_or_else(|| d.clone());
         report.violation("property", desc, replay_json(&small, &imp, serde_json::json!({"original_failure": d})));
     }
@@ -1057,11 +1179,11 @@ fn main() {
         for (i, c, imp, model_ans) in mismatches.iter() {
             // shrink while model and implementation keep disagreeing
             let small = shrink(c.clone(), &|d: &Case| {
-                let (imp, _) = register(d);
+                let imp = safe_register(d);
                 let req = format!("fin {} {} {}", i % 3, (i / 3) % 3, set_wire(&d.prefixes, &d.tpls));
                 driver::run_batch(&exe, &[req]).map(|m| m[0] != imp).unwrap_or(false)
             });
-            let (simp, _) = register(&small);
+            let simp = safe_register(&small);
             let req = format!("fin {} {} {}", i % 3, (i / 3) % 3, set_wire(&small.prefixes, &small.tpls));
             let smodel = driver::run_batch(&exe, &[req]).map(|m| m[0].clone()).unwrap_or_default();
             let stage = if imp.starts_with("ok") && model_ans.starts_with("ok") { "correspondence:finalize-derived" } else { "correspondence:finalize-acceptance" };
@@ -1077,7 +1199,7 @@ fn main() {
     for kind in ["extends-super", "include", "mixed"] {
         for depth in if quick { vec![8usize, 32] } else { vec![8usize, 32, 48, 64] } {
             let (c, top, expect) = deep_chain(kind, depth);
-            let (imp, _) = register(&c);
+            let imp = safe_register(&c);
             report.evaluations += 1;
             report.oracle_checks += 1;
             report.count(&format!("deep.{kind}.{depth}"));
@@ -1112,7 +1234,7 @@ fn main() {
 
     // ---- 4. the two known shapes, once each, in a child with a timeout
     for (id, c, top) in [("F5a", f5a(), "C"), ("F5b", f5b(), "A")] {
-        let (imp, _) = register(&c);
+        let imp = safe_register(&c);
         report.evaluations += 1;
         report.oracle_checks += 1;
         let (status, out) = render_in_child(&c, top, id, Duration::from_secs(20));
@@ -1133,7 +1255,6 @@ fn main() {
         }
         if imp.starts_with("ok") && status != "exit0" {
             report.oracle_failures += 1;
-            known_seen.insert(id.to_string());
             report.violations.push(Violation {
                 kind: "property".into(),
                 summary: format!("{id}: accepted set whose render does not terminate (child: {status})"),
